@@ -57,13 +57,21 @@ def slice_(
 
     pipeline: list[Any] = []
 
-    if _stop >= 0:
-        pipeline.append(ops.take(_stop))
-
-    if _start > 0:
-        pipeline.append(ops.skip(_start))
-    elif _start < 0:
+    if _start < 0 and stop is not None and _stop > 0:
+        # A negative start counts from the end of the whole sequence, so the
+        # stop bound must be applied to absolute positions, not before take_last.
+        pipeline.append(ops.scan(lambda acc, x: (acc[0] + 1, x), (-1, None)))
         pipeline.append(ops.take_last(-_start))
+        pipeline.append(ops.filter(lambda ix: ix[0] < _stop))
+        pipeline.append(ops.map(lambda ix: ix[1]))
+    else:
+        if _stop >= 0:
+            pipeline.append(ops.take(_stop))
+
+        if _start > 0:
+            pipeline.append(ops.skip(_start))
+        elif _start < 0:
+            pipeline.append(ops.take_last(-_start))
 
     if _stop < 0:
         pipeline.append(ops.skip_last(-_stop))
